@@ -78,7 +78,7 @@ def parts():
     return [core.Part('fifo', 'harness.scen_stream', 'fifo', 450, 8000, 'DriverFifo', ss.coq_fifo_case,
                       oracle, nontrivial),
             scen_lane.part(250, 5000),
-            __import__('harness.scen_parreal', fromlist=['order_part']).order_part(30, 500)]
+            __import__('harness.scen_parreal', fromlist=['order_part']).order_part(40, 500)]
 
 
 def check(tier, seed, replay=None):
